@@ -119,6 +119,8 @@ def feed_and_check(v, frags, groups, cmd_bytes, data_bytes, pc_id, cls_name, mod
     for t, val in cmdset.read(cmd_bytes):
         if t in (cmdset.TAG_AFF_SOP_CLASS, cmdset.TAG_REQ_SOP_CLASS):
             sop = cmdset.text(val)
+    if not sop:
+        mode = 'mem'           # a message that names no SOP class cannot belong to a class configured for file storage
     store = frozenset([sop]) if mode != 'mem' and sop else frozenset()
     ae = D.applicationentity.ClientAE('VERIF')
     opened = []
@@ -258,8 +260,8 @@ def main(tier='quick'):
         cls = D.CLASSES[bi % len(D.CLASSES)]
         for mode in (('mem', 'file') if nd else ('mem',)):
             ts = TS[(bi // 3) % 3]
-            # file-backed reception is what a storage SOP class is configured for: C-STORE-RQ
-            cls_used = D.dm.CStoreRQMessage if mode == 'file' else cls
+            # file-backed reception: whatever message carries a data set on a class configured for it (every type)
+            cls_used = cls
             cmd, data = message_material(cls_used, rng, bool(nd), ts)
             frags = [(True, i == len(nc) - 1, pl) for i, pl in enumerate(split_to(cmd, nc))] + \
                     [(False, i == len(nd) - 1, pl) for i, pl in enumerate(split_to(data, nd))]
@@ -374,7 +376,7 @@ def main(tier='quick'):
             k = min(k, left)
             groups.append((k, None))
             left -= k
-        mode = 'file' if (with_data and cls is D.dm.CStoreRQMessage) else 'mem'
+        mode = 'file' if (with_data and (cls is D.dm.CStoreRQMessage or i % 2 == 0)) else 'mem'
         meta = {'kind': 'library-fragments', 'class': cls.__name__, 'max': m, 'mode': mode, 'ts': str(ts),
                 'grouping': [g[0] for g in groups], 'seed_index': i}
         evs = feed_and_check(v, out, groups, cmd, dat or b'', pc_id, cls.__name__, mode, ts, meta)
